@@ -382,6 +382,13 @@ def c2k_model_compare(ctx, info, J, dim_js, tap_calls, kraus, tol=1e-9, atol=1e-
 
 # ------------------------------------------------------------------------------------------------ checks
 
+def _scale_obj(obj, sc):
+    """the same representation with every operator multiplied by sc"""
+    if isinstance(obj, (list, tuple)):
+        return type(obj)(_scale_obj(o, sc) for o in obj)
+    return np.asarray(obj) * sc
+
+
 def check_apply(ctx, din, dout, r, cp, cplx, extra_form=None, basis=None, seed=None):
     """one map in every representation, one input"""
     seed = int(ctx.rng.integers(1 << 62)) if seed is None else int(seed)
@@ -468,6 +475,18 @@ def check_apply(ctx, din, dout, r, cp, cplx, extra_form=None, basis=None, seed=N
             ctx.violation(f"kraus_to_choi[{name}]: Choi matrix differs from sum_ij E_ij (x) Phi(E_ij) (model agree={gm}, oracle agree={gs})",
                           dict(info2, impl=safe_jmat(implJ[1]), model=modelJ))
             continue
+        # ---- homogeneity on maps of very small / large norm: Kraus operators scaled by a power of two (exact in floating point) give the
+        # Choi matrix scaled by its square, entry for entry (krausToChoi_eq_spec: every entry is a sum of products A[.,.] * conj(B[.,.]))
+        if seed % 3 == 0:
+            for kexp in (-24, -30, 20):
+                sc = 2.0 ** kexp
+                pobj3 = present_obj(prng, _scale_obj(obj, sc))
+                implS = call(kraus_to_choi, pobj3)
+                ctx.case(dict(desc2, scale_exp=kexp), nontriv, f"kraus_to_choi/scaled/2^{kexp}")
+                if implS[0] != "ok" or not np.array_equal(np.asarray(implS[1]), np.asarray(implJ[1]) * (sc * sc)):
+                    ok = False
+                    ctx.violation(f"kraus_to_choi[{name}]: Kraus operators scaled by 2^{kexp} do not give the Choi matrix scaled by 2^{2 * kexp}",
+                                  dict(info2, scale_exp=kexp, impl=str(implS)[:300], theorem="krausToChoi_eq_spec (bilinear in the operators)"))
         J = implJ[1]
         if LA is As and (LB is Bs or LB is As):
             J_ref = J
